@@ -51,6 +51,63 @@ PrecUp(N, parent, fuel) ==
     IF parent = 0 \/ fuel = 0 THEN <<>> ELSE SibsBack(N, parent, Len(N)) \o PrecUp(N, N[parent].p, fuel - 1)
 L2Preceding(N, i) == PrecUp(N, i, Len(N) + 1)
 
+-----------------------------------------------------------------------------
+(* src/valueaccess.rs: the equality family as written - two filtered edge   *)
+(* streams compared pairwise (Start/Start by value, End/End for structure), *)
+(* then both must be exhausted; attribute sets compared by size and lookup  *)
+
+TextEq(a, b, tc) == NormText(a, tc) = NormText(b, tc)
+L2AttrGet(N, e, ns, ln) ==
+    LET hits == SelectSeq(AttrKids(N, e), LAMBDA x : N[x].ns = ns /\ N[x].ln = ln) IN IF hits = <<>> THEN 0 ELSE hits[1]
+L2CompareAttributes(N, a, b, tc) ==
+    /\ Len(AttrKids(N, a)) = Len(AttrKids(N, b))
+    /\ \A j \in 1..Len(AttrKids(N, a)) :
+          LET x == AttrKids(N, a)[j]  y == L2AttrGet(N, b, N[x].ns, N[x].ln) IN y # 0 /\ TextEq(N[x].t, N[y].t, tc)
+L2CompareValue(N, a, b, tc) ==
+    CASE N[a].k = "doc" /\ N[b].k = "doc" -> TRUE
+      [] N[a].k = "elem" /\ N[b].k = "elem" -> N[a].ns = N[b].ns /\ N[a].ln = N[b].ln /\ L2CompareAttributes(N, a, b, tc)
+      [] N[a].k = "text" /\ N[b].k = "text" -> TextEq(N[a].t, N[b].t, tc)
+      [] N[a].k = "comm" /\ N[b].k = "comm" -> N[a].t = N[b].t
+      [] N[a].k = "pi" /\ N[b].k = "pi" ->
+             N[a].ns = N[b].ns /\ N[a].ln = N[b].ln /\ N[a].d = N[b].d /\ (N[a].d => TextEq(N[a].t, N[b].t, tc))
+      [] N[a].k = "attr" /\ N[b].k = "attr" -> N[a].ns = N[b].ns /\ N[a].ln = N[b].ln /\ TextEq(N[a].t, N[b].t, tc)
+      [] N[a].k = "nsn" /\ N[b].k = "nsn" -> N[a].ln = N[b].ln /\ N[a].u = N[b].u
+      [] OTHER -> FALSE
+L2Edges(N, i, keep) ==
+    LET raw == IF IsNormal(N, i) THEN Traverse(N, i) ELSE <<i, 0 - i>> IN
+    SelectSeq(raw, LAMBDA ed : Keep(N, IF ed > 0 THEN ed ELSE 0 - ed, keep))
+L2AdvancedDeepEqual(N, a, b, keep, tc) ==
+    LET ea == L2Edges(N, a, keep)  eb == L2Edges(N, b, keep)
+        n == IF Len(ea) < Len(eb) THEN Len(ea) ELSE Len(eb)
+    IN /\ \A j \in 1..n : (ea[j] > 0 /\ eb[j] > 0 /\ L2CompareValue(N, ea[j], eb[j], tc)) \/ (ea[j] < 0 /\ eb[j] < 0)
+       /\ Len(ea) = Len(eb)
+L2DeepEqual(N, a, b) == L2AdvancedDeepEqual(N, a, b, "all", "exact")
+L2DeepEqualChildren(N, a, b) ==
+    LET ka == NormKids(N, a)  kb == NormKids(N, b) IN
+    /\ \A j \in 1..Len(ka) : j <= Len(kb) /\ L2DeepEqual(N, ka[j], kb[j])
+    /\ Len(kb) <= Len(ka)
+L2DeepEqualXPath(N, a, b, tc) ==
+    IF (N[a].k = "elem" /\ N[b].k = "elem") \/ (N[a].k = "doc" /\ N[b].k = "doc")
+    THEN L2AdvancedDeepEqual(N, a, b, "elemtext", tc) ELSE L2CompareValue(N, a, b, tc)
+L2ShallowEqualIgnoring(N, a, b, ign) ==
+    IF N[a].k = "elem" /\ N[b].k = "elem" THEN
+        /\ N[a].ns = N[b].ns /\ N[a].ln = N[b].ln
+        /\ LET ca == SelectSeq(AttrKids(N, a), LAMBDA x : <<N[x].ns, N[x].ln>> \notin ign)
+               cb == SelectSeq(AttrKids(N, b), LAMBDA x : <<N[x].ns, N[x].ln>> \notin ign)
+           IN /\ \A j \in 1..Len(ca) : LET y == L2AttrGet(N, b, N[ca[j]].ns, N[ca[j]].ln) IN y # 0 /\ N[y].t = N[ca[j]].t
+              /\ Len(ca) = Len(cb)
+    ELSE L2CompareValue(N, a, b, "exact")
+
+\* the transcription agrees with the canonical-form definitions of XotTree on a pair of nodes
+L2EqRefinesAt(N, a, b) ==
+    /\ L2DeepEqual(N, a, b) = DeepEqual(N, a, b)
+    /\ \A keep \in {"all", "nocomment", "elemtext"} : \A tc \in {"exact", "ci", "trim"} :
+          L2AdvancedDeepEqual(N, a, b, keep, tc) = AdvancedDeepEqual(N, a, b, keep, tc)
+    /\ (N[a].k \in {"doc", "elem"} /\ N[b].k \in {"doc", "elem"}) => L2DeepEqualChildren(N, a, b) = DeepEqualChildren(N, a, b)
+    /\ \A tc \in {"exact", "ci"} : L2DeepEqualXPath(N, a, b, tc) = DeepEqualXPath(N, a, b, tc)
+    /\ L2ShallowEqualIgnoring(N, a, b, {}) = ShallowEqualIgnoring(N, a, b, {})
+    /\ L2ShallowEqualIgnoring(N, a, b, {<<"", "a">>}) = ShallowEqualIgnoring(N, a, b, {<<"", "a">>})
+
 \* the transcriptions agree with the document-order definitions
 L2AxesRefineAt(N, i) ==
     /\ L2Following(N, i, FALSE) = Following(N, i)
